@@ -47,6 +47,12 @@ def bases(tier):
         clash = B("S3", [("h.d", "g.a"), ("h.d", "h.c"), ("g.b", "g.a")], ("end", None), "abs", None, True, mode)
         clash = rename_nested(clash, "h", "c", "a")      # g.a and h.a now share the short id 'a'
         out.append(clash)
+    for mode in ("asap", "alap"):
+        # the SAME relative reference text ('!a') written in two different containers, where it names two different tasks
+        leaf = lambda i, m, **kw: {"id": i, "effort": m, "alloc": ["r1"], **kw}  # noqa: E731
+        out.append({"dur": "4w", "alap": mode != "asap", "resources": [{"id": "r1"}],
+                    "tasks": [{"id": "g", "children": [leaf("a", 90), leaf("b", 150, deps=["!a"])]},
+                              {"id": "h", "deps": ["!g"], "children": [leaf("a", 60), leaf("b", 40, deps=["!a"])]}]})
     two = {"shifts": [{"id": "s1", "hours": [("mon - fri", ["8:00 - 12:00", "13:00 - 17:00"])]}],
            "vacations": [("2025-01-08", None)],
            "resources": [{"id": "r1", "shift": "s1", "eff": 0.7, "leaves": [{"k": "leaves", "type": "sick", "a": "2025-01-09", "b": "2025-01-11"}]},
